@@ -5,6 +5,8 @@ import (
 	"go/constant"
 	"go/token"
 	"go/types"
+	"os"
+	"time"
 	"sort"
 	"unicode/utf8"
 
@@ -108,6 +110,24 @@ func (ex *Exec) pos() string {
 		return "?"
 	}
 	p := ex.eng.Prog.Fset.Position(ex.cur.Pos())
+	if !p.IsValid() {
+		// nearest positioned instruction in the same block (prefer earlier ones)
+		if b := ex.cur.Block(); b != nil {
+			idx := -1
+			for i, in := range b.Instrs {
+				if in == ex.cur {
+					idx = i
+					break
+				}
+			}
+			for i := idx - 1; i >= 0 && !p.IsValid(); i-- {
+				p = ex.eng.Prog.Fset.Position(b.Instrs[i].Pos())
+			}
+			for i := idx + 1; i < len(b.Instrs) && !p.IsValid(); i++ {
+				p = ex.eng.Prog.Fset.Position(b.Instrs[i].Pos())
+			}
+		}
+	}
 	if !p.IsValid() && ex.curFr != nil {
 		// fall back to enclosing function position
 		p = ex.eng.Prog.Fset.Position(ex.curFr.fn.Pos())
@@ -143,7 +163,11 @@ func (ex *Exec) check(c *Term) Result {
 		}
 		return Unsat
 	}
+	t0 := time.Now()
 	r, _ := ex.sol.Check([]*Term{c}, nil)
+	if d := time.Since(t0); ex.eng.SlowMs > 0 && d > time.Duration(ex.eng.SlowMs)*time.Millisecond {
+		fmt.Fprintf(os.Stderr, "SLOW %v %v at %s in %s: %.200s\n", d, r, ex.pos(), ex.fnName(), c.String())
+	}
 	if r == Unknown {
 		ex.res.Unknowns++
 	}
@@ -214,27 +238,27 @@ func (ex *Exec) concretize(t *Term, lo, hi int64, what string) int64 {
 			ex.trace = append(ex.trace, d)
 			eq := st.Eq(t, st.Const(t.W, uint64(d.Val)))
 			if d.Taken {
-				ex.assume(eq)
+				if !d.Forced {
+					ex.assume(eq)
+				}
 				return d.Val
 			}
 			ex.assume(st.Not(eq))
 			continue
 		}
 		inRange := st.And(st.Sle(st.Const(t.W, uint64(lo)), t), st.Sle(t, st.Const(t.W, uint64(hi))))
-		r, model := ex.sol.Check([]*Term{inRange}, nil)
-		_ = model
-		if r == Unsat {
+		v, ok := ex.modelValue(t, inRange)
+		if !ok {
+			// no value inside the range: the remaining values lie outside the bound
 			ex.res.Truncated = append(ex.res.Truncated, what)
 			panic(pathEnd{"bound"})
 		}
-		// find a value: ask for a model of t via an auxiliary variable
-		v, ok := ex.modelValue(t, inRange)
-		if !ok {
-			ex.res.Unknowns++
-			panic(pathEnd{"unknown"})
-		}
 		eq := st.Eq(t, st.Const(t.W, uint64(v)))
-		// alternative: t != v
+		// alternative: t != v (only if feasible)
+		if ex.check(st.Not(eq)) == Unsat {
+			ex.trace = append(ex.trace, Decision{Kind: dConc, Taken: true, Val: v, Forced: true})
+			return v
+		}
 		alt := make([]Decision, len(ex.trace)+1)
 		copy(alt, ex.trace)
 		alt[len(ex.trace)] = Decision{Kind: dConc, Taken: false, Val: v}
@@ -251,6 +275,10 @@ func (ex *Exec) modelValue(t *Term, extra *Term) (int64, bool) {
 	name := fmt.Sprintf("aux%d", len(ex.st.Vars))
 	aux := ex.st.Var(name, t.W)
 	r, m := ex.sol.Check([]*Term{extra, ex.st.Eq(aux, t)}, []*Term{aux})
+	if r == Unknown {
+		ex.res.Unknowns++
+		ex.res.Truncated = append(ex.res.Truncated, "unknown during concretisation")
+	}
 	if r != Sat {
 		return 0, false
 	}
@@ -465,6 +493,9 @@ func (ex *Exec) store(p Value, v Value) {
 
 // derefCell returns the cell of a concrete non-nil pointer, materialising lazy zeros.
 func (ex *Exec) cellOf(p Value, elem types.Type) *Value {
+	if sp, isSym := p.(SymPtr); isSym {
+		p = ex.resolvePtr(sp)
+	}
 	pp, ok := p.(Ptr)
 	if !ok {
 		if up, ok := p.(UnsafePtr); ok {
@@ -479,6 +510,20 @@ func (ex *Exec) cellOf(p Value, elem types.Type) *Value {
 		*pp.P = ex.zero(elem)
 	}
 	return pp.P
+}
+
+// resolvePtr turns a symbolic pointer into a concrete one by forking on its guards.
+func (ex *Exec) resolvePtr(sp SymPtr) Ptr {
+	for i, c := range sp.C {
+		if i == len(sp.C)-1 {
+			ex.assume(c.G)
+			return Ptr{c.P}
+		}
+		if ex.branch(c.G) {
+			return Ptr{c.P}
+		}
+	}
+	panic(pathEnd{"assume"})
 }
 
 func (ex *Exec) global(g *ssa.Global) *Value {
@@ -1101,7 +1146,7 @@ func (ex *Exec) sliceOp(fr *frame, in *ssa.Slice) Value {
 		isStr = true
 		str = xv
 		ln, cp = xv.Len(), xv.Len()
-	case Ptr, UnsafePtr:
+	case Ptr, UnsafePtr, SymPtr:
 		aT := deref(in.X.Type())
 		cell := ex.cellOf(x, aT)
 		arr := (*cell).(Array)
